@@ -131,7 +131,10 @@ Foreign(r) == r.by = "att" /\ ~IsSub(r.o, AttZ)   \* sent by Z's server, owned o
 (* the adversary's alphabet *)
 RefKinds == {"ref_ok", "ref_self", "ref_up", "ref_side", "ref_mixed", "ref_mixed2",
              "ref_class", "ref_offpath"}
-AnsKinds == {"honest", "ans_foreign", "cname_out", "cname_bare", "auth_foreign", "neg_foreign"}
+\* "dname_out" is "cname_out" reached through a DNAME at Z's apex: the answer carries the DNAME, the CNAME synthesised
+\* from it and a forged record for the (out-of-zone) target; the model's records have no DNAME type, so the abstract
+\* message is the same alias with an out-of-zone tail (the resolver trims the answer on a separate branch when a DNAME applies)
+AnsKinds == {"honest", "ans_foreign", "cname_out", "dname_out", "cname_bare", "auth_foreign", "neg_foreign"}
 \* "out6" is "out" with the glue given as an AAAA record (the resolver checks the two families in separate
 \* branches; the model's address records have no family, so the abstract message is the same)
 GlueKinds == {"in", "out", "out6", "loop", "local"}
@@ -151,7 +154,7 @@ ZContent(i, m) ==
       goodGlue == A(SubNs(i), HonestAddr[SubZ(i)], "att")
   IN CASE m.kind = "honest"       -> Msg("OK", <<w>>, <<>>, <<>>)
        [] m.kind = "ans_foreign"  -> Msg("OK", <<w, PoisonV>>, <<>>, <<>>)
-       [] m.kind = "cname_out"    -> Msg("OK", <<CNAME(W(i), Victim, "att"), PoisonV>>, <<>>, <<>>)
+       [] m.kind \in {"cname_out", "dname_out"} -> Msg("OK", <<CNAME(W(i), Victim, "att"), PoisonV>>, <<>>, <<>>)
        [] m.kind = "cname_bare"   -> Msg("OK", <<CNAME(W(i), Victim, "att")>>, <<>>, <<>>)
        [] m.kind = "auth_foreign" -> Msg("OK", <<w>>, <<NS(BankZ, TrapHost, "att")>>, <<TrapGlue, PoisonV>>)
        [] m.kind = "neg_foreign"  -> Msg("OK", <<>>, <<SOA(BankZ, "att")>>, <<PoisonV>>)
